@@ -21,7 +21,9 @@ CLAIMED = {
                 "appends, and what it appends does not depend on what is already there), the same whole-command frame for the table-driven keys of .image (C02_image_string_key_frame, _bool_key_frame), .network (C02_network_string_key_frame, "
                 "_bool_key_frame, _list_key_frame) and .pod units (C02_pod_string_key_frame, _list_key_frame, on the `podman pod create` ExecStartPre= line), each with a non-vacuity example, plus kernel-checked witnesses of the two repaired defects over the full container converter. The special "
                 "handlers, word-list and name=value kinds, and the whole-command clauses (nothing else changes, global options before the sub-command, PodmanArgs after the key options, object then Exec last) "
-                "are decided by the direct metamorphic oracle on implementation output (with/without the key, all 7 types) plus whole-service correspondence with the converter model.",
+                "are decided by the direct metamorphic oracle on implementation output (with/without the key, all 7 types) plus whole-service correspondence with the converter model. "
+                "Position clauses proved for EVERY successful conversion of .container, .image and .network units (C02_container_command_shape, C02_image_command_shape, C02_network_command_shape: every handler only appends, so the command is "
+                "[podman] ++ --module options ++ GlobalArgs ++ sub-command words ++ key options ++ PodmanArgs ++ object (image or --rootfs R / name) ++ Exec words -- global options before the sub-command, PodmanArgs after all key options, object then Exec last).",
         "note": "Trusted: Coq kernel; tools/docs.py / Spec/Docs.v as the documentation transcript; the converter model; extraction; driver; Mount= modelled only on the csv crate's quote-free domain.",
         "technique": "machine-checked proof in Rocq (Coq 8.16) of table equalities and handler frame theorems; metamorphic oracle and differential correspondence for the whole command",
         "design": "DESIGN.md §7 C02",
@@ -61,7 +63,8 @@ CLAIMED = {
                 "without blanks at the edges -- is read back from to_string exactly), C06_lines (one physical line per entry, two per section), C06_quote_value_safe (add/set/prepend never "
                 "store a raw control character), C06_write_calls (write_to = to_string). The generator clause (every stored value is of that form) is tied by a store-site inventory of convert.rs "
                 "and decided by a direct oracle (convert, serialise, read back with the implementation's parser) over units of all 7 types with injection payloads: partial in that respect. "
-                "Known finding BlankAtValueEdge.",
+                "Known finding BlankAtValueEdge. "
+                "Generator clause, first half, proved over the WHOLE RUN on arbitrary file contents: C06_generated_services_have_no_newline / C06_generated_services_line_count (every service any of the seven converters produces has no newline in any section name, key or value -- user entries: the parser machine never lets one in (C06_parsed_units_have_no_newline); generated entries: quote_value / quote_words never emit a control character; keys and section names are literals -- hence exactly one physical line per entry and two per section in the written file: no value can add, split or swallow a line); C06_conversion_adds_no_newline for a single conversion. The read-back of generated VALUES (validated, no blank at an edge) over the whole run remains with the oracle.",
         "note": "Trusted: Coq kernel; Spec/Layout.v; extraction; driver; generators; the documented key tables in tools/docs.py used to build convertible units.",
         "technique": "machine-checked proof in Rocq (Coq 8.16): serialiser/parser round trip as a corollary of the layout theorem + store-site inventory + differential correspondence check",
         "design": "DESIGN.md §7 C06",
@@ -208,7 +211,8 @@ CLAIMED = {
         "text": "Rocq theorem C20_exact: for every code-point string s, the model of the hand-written recogniser accepts s iff s is in the language "
                 "digits+ ('-' digits+)? ('/tcp'|'/udp')? stated declaratively (PortRe); full for the recogniser. Tied to /repo by differential runs "
                 "through the real container converter (exhaustive over a 10-symbol alphabet to length 4/6) and a direct oracle on the implementation's "
-                "output (accept <=> regex, '--expose <trimmed value>' present, rejection quotes the value). The call-site clause is checked by that oracle, not yet by a theorem.",
+                "output (accept <=> regex, '--expose <trimmed value>' present, rejection quotes the value). The call-site clause is checked by that oracle, not yet by a theorem. "
+                "Call site proved over the whole container converter: C20_callsite_accepts (if a container converts, every effective ExposeHostPort= value, trimmed, is in the language and the command carries exactly --expose <trimmed value> for each of them, in order, as one consecutive run) and C20_callsite_rejects (a value outside the language makes the conversion of that container fail).",
         "note": "Trusted: Coq kernel; Spec/PortRe.v; extraction; driver; the Python regex used as search oracle. Unicode trim at the call site is modelled (Model/PortRange.v trim) and compared, not proved.",
         "technique": "machine-checked proof in Rocq (Coq 8.16): recogniser = regular language, plus differential correspondence check",
         "design": "DESIGN.md §7 C20",
